@@ -203,3 +203,43 @@ Proof.
   - reflexivity.
   - cbn [p_pol p_o]. destruct (orient_eqb _ oUNKNOWN) eqn:E; [left; apply orient_eqb_eq; exact E|right; reflexivity].
 Qed.
+
+(* ---------- the shift pass: positions satisfying the constraint arcs keep the rows legal ---------- *)
+Lemma in_shift_false_new_x xs c : in_shift xs c = false -> new_x xs c = p_x c.
+Proof.
+  unfold in_shift, new_x. induction xs as [|p xs IH]; cbn [existsb find]; [reflexivity|].
+  destruct (Nat.eqb (fst p) (p_id c)); cbn [orb]; [discriminate|exact IH].
+Qed.
+
+Definition shift_pre (xs : list (nat * Z)) (prev_sel : bool) (old_end new_end hi : Z) (l : list pcell) : Prop :=
+  (prev_sel = false -> new_end = old_end) /\
+  (prev_sel = true -> match l with [] => new_end <= hi | n :: _ => in_shift xs n = false -> new_end <= p_x n end).
+
+Lemma row_shift_chain xs hi l : forall prev_sel old_end new_end,
+  chain old_end hi l -> shift_pre xs prev_sel old_end new_end hi l ->
+  row_shift_ok xs prev_sel old_end new_end hi l = true ->
+  chain new_end hi (map (move_cell xs) l).
+Proof.
+  induction l as [|c r IH]; intros prev_sel old_end new_end Hc [P1 P2] Hok; cbn [map chain row_shift_ok] in *.
+  - destruct prev_sel; [apply P2; reflexivity|rewrite P1 by reflexivity; exact Hc].
+  - destruct Hc as (H1 & H2 & H3). cbn [move_cell p_x p_w].
+    apply andb_prop in Hok as [Hok Hrec]. apply andb_prop in Hok as [Hlo Hhi].
+    destruct (in_shift xs c) eqn:Sel.
+    + split; [|split; [exact H2|]].
+      * destruct prev_sel; apply Z.leb_le in Hlo; [exact Hlo|rewrite P1 by reflexivity; exact Hlo].
+      * apply (IH true (p_x c + p_w c) (new_x xs c + p_w c) H3); [|exact Hrec].
+        split; [discriminate|]. intros _. destruct r as [|n r']; [apply Z.leb_le; exact Hhi|].
+        intros Hn. rewrite Hn in Hhi. apply Z.leb_le; exact Hhi.
+    + rewrite (in_shift_false_new_x xs c Sel) in *. split; [|split; [exact H2|]].
+      * destruct prev_sel; [apply P2; reflexivity|rewrite P1 by reflexivity; exact H1].
+      * apply (IH false (p_x c + p_w c) (p_x c + p_w c) H3); [|exact Hrec]. split; [reflexivity|discriminate].
+Qed.
+
+Theorem shift_inv s xs : Inv s -> shift_ok s xs = true -> Inv (apply_shift s xs).
+Proof.
+  intros [HR HL] Hok. unfold apply_shift, Inv. cbn [d_rows d_loose]. split; [|exact HL].
+  unfold shift_ok in Hok. rewrite forallb_forall in Hok. rewrite Forall_forall in *.
+  intros r' Hr'. apply in_map_iff in Hr' as (r & <- & Hr). unfold row_ok. cbn [set_cells dr_min dr_max dr_cells].
+  apply (row_shift_chain xs (dr_max r) (dr_cells r) false (dr_min r) (dr_min r)); [exact (HR r Hr)| |exact (Hok r Hr)].
+  split; [reflexivity|discriminate].
+Qed.
